@@ -4,9 +4,11 @@ R-C05-1: A[p,q] == A[q,p] for all non-Dirichlet nodes p,q, for the give and the 
 R-C05-3: every diagonal entry of a non-Dirichlet row is positive at the test points for positive spacings/coefficients,
          also with beta == 0 (the stiffness part alone), for take and for give under all four cache-flag combinations
          (necessary for definiteness; decided on the exact tables, not on floating-point output).
+R-C05-4: the same two conditions for the operator of level 1, assembled from the LevelCache that the second constructor
+         derives from the finer level's cache (the object setup() really uses on every coarser level), all cache flags.
 (The symmetry of the smoothers' line blocks before one-sided storage, R-C05-2, is checked with C06.)
 """
-from gmg import dag, ir, report, tab_ops
+from gmg import dag, ir, opsdom, report, symdom, tab_ops
 
 
 def shapes(tier):
@@ -19,6 +21,7 @@ def main(tier):
     ck = report.Check("C05", tier, level="proof", technique="symbolic interpretation of the residual operators into exact matrix tables; symmetry by polynomial identity testing of A[p,q]-A[q,p]")
     ck.rule("R-C05-1", "A[p,q] == A[q,p] on non-Dirichlet unknowns (give and take)", floor=6)
     ck.rule("R-C05-3", "diagonal entries of non-Dirichlet rows are positive for positive spacings and coefficients", floor=6)
+    ck.rule("R-C05-4", "the operator of level 1, assembled from the LevelCache that is derived from the finer level's, is symmetric with positive diagonal (give under all cache flags, take)", floor=10)
     prog = tab_ops.load()
     ck.units += prog.units
     for qn in ("ResidualGive::applyCircleSection", "ResidualGive::applyRadialSection", "ResidualTake::applyCircleSection", "ResidualTake::applyRadialSection"):
@@ -76,6 +79,49 @@ def main(tier):
                 ck.violation("R-C05-3", "%s:diagonal" % cls, site, "%s: diagonal entry of row %s is %s, not positive" % (key, neg[0], neg[1]))
             else:
                 ck.ok("R-C05-3", key)
+    # ---------------- R-C05-4: the operator of a coarser level, assembled from the cache that setup() derives from the finer one
+    lv_shapes = [(9, 8, 4, False), (9, 8, 3, True), (7, 12, 3, False)] if tier == "quick" else [(9, 8, 4, False), (9, 8, 3, True), (7, 12, 3, False), (7, 8, 0, True), (9, 12, 9, False), (11, 8, 5, True)]
+    for (nr, nt, nsc, dirbc) in lv_shapes:
+        S = tab_ops.Setting(prog, nr, nt, nsc, dirbc)
+        cgrid = symdom.coarse_of(S.grid, min((nsc + 1) // 2, (nr + 1) // 2))
+        C = tab_ops.Setting.__new__(tab_ops.Setting)
+        C.__dict__.update(S.__dict__)
+        C.shape = tuple(cgrid.shape)
+        C.grid = cgrid
+        for cls, flagsets in (("ResidualGive", [(True, True), (True, False), (False, True), (False, False)]), ("ResidualTake", [(True, True)])):
+            site = "src/Level/levelCache.cpp"
+            for fl in flagsets:
+                key = "%s level 1 of %s caches=(%s,%s)" % (cls, S.key(), fl[0], fl[1])
+                ck.instance("R-C05-4", key)
+                lvl = symdom.make_level(0, S.grid, S.cache(*fl))
+                ccache = opsdom.coarse_cache(prog, S.dom, lvl, cgrid)
+                A, probs, regs = S.residual(cls, ccache, grid=cgrid)
+                bad = None
+                for p_, row in A.items():
+                    if C.dirichlet(p_):
+                        continue
+                    d = row.get(p_)
+                    if d is None or dag.sign_at_points(d) != {1}:
+                        bad = "diagonal entry of row %s is %s, not positive" % (C.rt(p_), dag.show(d, 120) if d is not None else None)
+                        break
+                    d0 = dag.subst(d, {}, funcs={"coefficients.beta": lambda args: dag.ZERO})
+                    if dag.sign_at_points(d0) != {1}:
+                        bad = "with beta == 0 the diagonal entry of row %s is %s, not positive" % (C.rt(p_), dag.show(d0, 100))
+                        break
+                    for q, a in row.items():
+                        if q is None or q == p_ or C.dirichlet(q):
+                            continue
+                        if not dag.equal(a, A.get(q, {}).get(p_, dag.ZERO)):
+                            bad = "A[%s,%s] = %s but A[%s,%s] = %s" % (C.rt(p_), C.rt(q), dag.show(a, 100), C.rt(q), C.rt(p_), dag.show(A.get(q, {}).get(p_, dag.ZERO), 100))
+                            break
+                    if bad:
+                        break
+                if probs and not bad:
+                    bad = probs[0]
+                if bad:
+                    ck.violation("R-C05-4", "%s:coarse-level" % cls, site, "%s: %s" % (key, bad))
+                else:
+                    ck.ok("R-C05-4", key)
     return ck.finish(
         "The residual operator (both strategies) is interpreted from source into an exact matrix over rational-function DAGs on "
         "representative grids (non-uniform spacings, antipodally paired angles, non-orthogonal geometry: all four Jacobian entries are "
